@@ -13,7 +13,7 @@ Driver for C01 (compact index round trip).  One case = the `src` lines of a feat
   `load`                     => `ok` | `err`
   `find <id>`                => `none` | `pt [tags]` | `pa [tags] [geom]` | `ar [tags] [polys]` | `re [tags] [members]` | `panic`
   `each`                     => `[id …]`             EachFeature, one goroutine, emission order
-  `rels <id>`                => `[id …]`             FindRelationsByFeature, sorted
+  `rels <id>`                => `[id …]`             FindRelationsByFeature (transitive referrers that are relations), sorted
   `reset`                    => `-`                  next corpus witness
 
 The model index is `B6.Model.CompactIndex.build strs fs` with `strs` = the implementation's string table (the
@@ -21,7 +21,8 @@ string bijection is a parameter of the model and of the theorems); the driver ch
 spec (duplicate free, exactly the strings of the source, count-sorted).  Predicates evaluated on the
 implementation's answers: `build` must not fail when the model builds; `find` of every kept feature must be the
 canonical form of the source feature (`canon`); `each` must be a duplicate free permutation of the kept ids;
-`rels` of a kept feature must be the relations that list it.  Everything else is compared with the model
+`rels` of a kept feature must be the relations among its transitive referrers (paths of a point, areas of a path,
+relations of any of them), each once.  Everything else is compared with the model
 (`diff`).  Known finding classes (each the negation of a hypothesis of `Accepts`): `fid-tag-value` = `hasFidTag fs`,
 `point-member-without-block` = `hasPointMemberWithoutBlock fs`, `list-tag-on-non-path` = `hasListTagOnNonPath fs`.
 -/
@@ -202,9 +203,29 @@ where insertFIDdup (x : FID) : List FID → List FID
   | [] => [x]
   | y :: ys => if x.lt y then x :: y :: ys else y :: insertFIDdup x ys
 
-/-- the relations that list `id` as a member, sorted like the harness sorts them -/
-def specRelations (fs : List Feature) (id : FID) : List FID :=
-  insertSortFID ((fs.filter fun r => r.id.typ == 3 && r.members.any fun m => m.id == id).map (·.id)).eraseDups
+/-- the direct referrers of `id` in the source, as far as the index records them: kept paths through a point
+(closing visit excluded), kept areas over a path, relations listing the feature — for a path / area / relation
+only if it is itself in the index -/
+def specDirect (fs : List Feature) (keptIds : List FID) (id : FID) : List FID :=
+  if id.typ != 0 && !keptIds.contains id then [] else
+  let paths := if id.typ != 0 then [] else
+    (fs.filter fun p => p.id.typ == 1 && keptIds.contains p.id &&
+      (let es := geomElems p
+       let stop := if closedPath (pathElems p) then geometryLen p - 1 else geometryLen p
+       (es.take stop).any fun e => match e with
+         | .ref r => r.valid && r.ns == id.ns && r.val == id.val
+         | .ll _ => false)).map (·.id)
+  let areas := if id.typ != 1 then [] else
+    (fs.filter fun a => a.id.typ == 2 && keptIds.contains a.id && a.polys.any fun p => match p with
+      | .paths ids => ids.contains id
+      | .loops _ => false).map (·.id)
+  let rels := (fs.filter fun r => r.id.typ == 3 && r.members.any fun m => m.id == id).map (·.id)
+  paths ++ areas ++ rels
+
+/-- the relations among the transitive referrers of `id` (what the repaired `FindRelationsByFeature` returns, as
+the in-memory world does), sorted like the harness sorts them -/
+def specRelations (fs : List Feature) (keptIds : List FID) (id : FID) : List FID :=
+  insertSortFID ((referrersLoop (specDirect fs keptIds) (fs.length + 2) [id] []).filter (·.typ == 3))
 
 def judge (impl model : String) (spec : Option String) (clause : String) (known : Bool) : Verdict :=
   match spec with
@@ -315,10 +336,8 @@ def step (st : St) (op impl : String) : St × Verdict :=
     if st.known then (st, .ok) else
     match parseID i, st.ix with
     | some id, some ix =>
-      let model := match relationsOf ix id with
-        | some l => renderList ((insertSortFID l).map rID)
-        | none => "panic"
-      let spec := if st.keptIds.contains id then some (renderList ((specRelations st.fs id).map rID)) else none
+      let model := renderList ((insertSortFID (relationsOf ix id)).map rID)
+      let spec := if st.keptIds.contains id then some (renderList ((specRelations st.fs st.keptIds id).map rID)) else none
       (st, judge impl model spec "relations-of-member-differ-from-source" false)
     | _, _ => (st, .bad)
   | _ => (st, .bad)
